@@ -13,6 +13,7 @@
 #include "sinks/iodevicesink.cpp"
 #include "sinks/filesink.cpp"
 #include "sinks/rotatingfilesink.cpp"
+#include "vf_rest_of_repo.h"
 #include "../FS/vf_env.h"
 using namespace QtLogger;
 #ifndef VF_N
@@ -24,12 +25,19 @@ extern "C" void h_fatal()
     env_clock(0, 0);
     env_bufsize(vf_range(0, 12));          // write-buffer threshold (real Qt: 16 KiB; any threshold must be safe)
     Logger lg;
-    bool rotating = vf_nondet_bool(), nested = vf_nondet_bool();
+#ifndef VF_ROTATING
+#define VF_ROTATING 0
+#endif
+#ifndef VF_NESTEDP
+#define VF_NESTEDP 0
+#endif
+    const bool rotating = VF_ROTATING, nested = VF_NESTEDP;      // fixed per job (all four combinations are jobs)
     QString path = env_path(QStringLiteral("a.l"));
     SinkPtr sink;
     if (rotating) sink = RotatingFileSinkPtr::create(path, 0, 0, RotatingFileSink::RotationDaily);
     else sink = FileSinkPtr::create(path);
-    if (nested) lg.pipeline().append(sink); else lg.append(sink);
+    if (VF_NESTEDP == 2) { lg.pipeline().end(); lg.pipeline().append(sink); }     // an empty nested pipeline first, the file sink in the second one
+    else if (nested) lg.pipeline().append(sink); else lg.append(sink);
     QMessageLogContext ctx("f", 1, "fn", "c");
     int n = vf_range(0, VF_N);
     QByteArray expect; expect = QByteArray("");
